@@ -50,6 +50,9 @@ def quant_alphabet(kind):
         "indep2": [1.0, 2.0, 3.0, 3.0, 2.0, 1.0] * 2,
         "const": [1.0] * N,
         "halfnan": [nan if i % 2 else v for i, v in enumerate(swap(y, 0, 10))],
+        # few observed rows, on which the column separates the target perfectly: strong R, weak Kruskal H
+        "strongnan": [(v * 10.0 if i in (0, 3, 5, 6, 8, 11) else nan) for i, v in enumerate(y)],
+        "strongnan2": [(v * 7.0 + 1 if i in (1, 2, 6, 7, 10, 11) else nan) for i, v in enumerate(y)],
     }
 
 
@@ -99,6 +102,12 @@ def kruskal_by_feature(x, y):
     cats = list(dict.fromkeys(v for v in x if not isnan(v)))
     groups = [[yv for xv, yv in zip(x, y) if xv == c] for c in cats]
     return stats.kruskal(groups)
+
+
+def eta_by_target(x, y):
+    classes = list(dict.fromkeys(y))
+    groups = [[xv for xv, yv in zip(x, y) if yv == c and not isnan(xv)] for c in classes]
+    return stats.correlation_ratio(groups)
 
 
 def crosstab(a, b):
